@@ -5,6 +5,9 @@
 package parser
 
 import (
+	"path"
+	"path/filepath"
+
 	"github.com/coreruleset/crs-toolchain/v2/utils"
 )
 
@@ -97,9 +100,9 @@ func SpecCutReplace(entry, match, replacement string) string {
 // buildIncludeString: the included file is parsed with NO definitions of the including file
 // (third argument nil), and the definitions it returns are discarded: nothing leaks either way.
 //@ contract buildIncludeString
-//@   tags C05
+//@   tags C05 C07
 //@   results out err
-//@   checks[C05] definitions-not-shared: called(parseFile) && isNil(argOf(parseFile, 2))
+//@   checks[C05,C07] definitions-not-shared: called(parseFile) && isNil(argOf(parseFile, 2))
 
 // SpecBlockWith: `base` followed by xs[0..n), each followed by the concatenation marker
 // (accumulated from the left, as the code writes it).
@@ -158,3 +161,42 @@ func SpecBlockMiddle(prefixes []string, body string, hasSuffixes bool) string {
 //@   tags C02
 //@   results r
 //@   ensures only-i-and-s: r == (flag == 'i' || flag == 's')
+
+// ---- C05: where an included file is looked for ------------------------------------------------
+
+func OpaquePathExt(p string) string         { return path.Ext(p) }
+func OpaqueIsAbs(p string) bool             { return filepath.IsAbs(p) }
+func OpaqueFJoin2(a, b string) string       { return filepath.Join(a, b) }
+
+//@ extern path.Ext
+//@   params p
+//@   results r
+//@   ensures r == OpaquePathExt(p)
+
+//@ extern filepath.IsAbs
+//@   params p
+//@   results r
+//@   ensures r == OpaqueIsAbs(p)
+
+//@ extern filepath.Join/2
+//@   params a b
+//@   results r
+//@   ensures r == OpaqueFJoin2(a, b)
+
+// SpecWithRa: the .ra extension is appended unless the name already ends in it.
+func SpecWithRa(name string) string {
+	if OpaquePathExt(name) != ".ra" {
+		return name + ".ra"
+	}
+	return name
+}
+
+// parseFile: the name is completed to <name>.ra unless its extension is .ra already; an
+// absolute name is opened as it is, a relative one is looked for in the include directory
+// first and in the exclude directory second; the first file that opens is parsed.
+//@ contract parseFile
+//@   tags C05 C16
+//@   results out vars
+//@   loop 0 invariant filename == SpecWithRa(old(filename)) && implies(OpaqueIsAbs(filename), filePath == filename)
+//@   loop 0 body[C05] path-tried: argOf(Open, 0) == iteS(OpaqueIsAbs(SpecWithRa(old(filename))), SpecWithRa(old(filename)), OpaqueFJoin2(directory, SpecWithRa(old(filename))))
+//@   loop 0 body[C05] include-dir-first: implies(rangeIndex0 == 1, directory == rootParser.ctx.rootContext.includeFilesDirectory) && implies(rangeIndex0 == 2, directory == rootParser.ctx.rootContext.excludeFilesDirectory)
